@@ -106,6 +106,8 @@ pub struct World {
     pub sprovs: HashMap<usize, crate::fam_prov::ProvStream>,
     /// description and unit every signal was registered with (by this harness): id -> (description, unit)
     pub reg: HashMap<i32, (String, Option<String>)>,
+    /// providers behind an in-process provider stream that is read only when nothing else can move and at dumps
+    pub lazy: Vec<crate::fam_prov::LazyProv>,
     pub v1streams: HashMap<Tok, crate::fam_prov::V1Stream>,
     pub sdvstreams: HashMap<Tok, crate::fam_prov::SdvStream>,
     pub scopes: Vec<String>,
@@ -133,6 +135,7 @@ impl World {
             grpc: None,
             sprovs: HashMap::new(),
             reg: HashMap::new(),
+            lazy: Vec::new(),
             v1streams: HashMap::new(),
             sdvstreams: HashMap::new(),
             scopes: vec![],
@@ -483,7 +486,9 @@ async fn step_inner(w: &mut World, l: &[Tok], start: SystemTime) -> Vec<Vec<Tok>
         9 => {
             let (Some(p), Some(id), Some(v)) = (c.next(), c.next(), c.value()) else { return bad };
             let perms = w.perm(p);
-            match w.broker.authorized_access(&perms).actuate(&(id as i32), &v).await {
+            let b = w.broker.clone();
+            let r = crate::fam_prov::with_lazy_drain(&mut w.lazy, async move { b.authorized_access(&perms).actuate(&(id as i32), &v).await }).await;
+            match r {
                 Ok(()) => vec![vec![0]],
                 Err((e, _)) => vec![vec![1, act_err(&e)]],
             }
@@ -496,7 +501,9 @@ async fn step_inner(w: &mut World, l: &[Tok], start: SystemTime) -> Vec<Vec<Tok>
                 cs.push(ActuationChange { id: id as i32, data_value: v });
             }
             let perms = w.perm(p);
-            match w.broker.authorized_access(&perms).batch_actuate(cs).await {
+            let b = w.broker.clone();
+            let r = crate::fam_prov::with_lazy_drain(&mut w.lazy, async move { b.authorized_access(&perms).batch_actuate(cs).await }).await;
+            match r {
                 Ok(()) => vec![vec![0]],
                 Err((e, _)) => vec![vec![1, act_err(&e)]],
             }
@@ -648,7 +655,7 @@ async fn step_inner(w: &mut World, l: &[Tok], start: SystemTime) -> Vec<Vec<Tok>
             }
         }
         50..=56 => crate::fam_viss::step_viss(w, op, &mut c, start).await,
-        60..=63 => crate::fam_prov::step_prov(w, op, &mut c).await,
+        60..=64 => crate::fam_prov::step_prov(w, op, &mut c).await,
         41 => {
             let Some(h) = c.next() else { return bad };
             if let Some(s) = w.qsubs.get_mut(h as usize) {
